@@ -16,10 +16,20 @@ BUILT = {
          "Partial: soundness of shape is proved, language equality is tested."),
  "C05": ("Theorems: the lexer on any bytes returns (tokens ending in the only EOF, positions in range) and never panics; the parser's cursor never leaves the token list and fuel 2*tokens+2 suffices; whatever compiles is the AST of an expression tree; Search on any bytes and any data returns a value or an error, never a panic. All unchecked Go operations are kept unchecked in the model.",
          "PARTIAL by nature: real time, memory and stack depth are runtime facts outside the model; the harness runs long inputs (to 64 KiB) on the library only and every case under a crash/hang watchdog."),
+ "C06": ("Theorem (regenerated from the Go source on every run by a write-site analysis in tools/extract_tables): every statement of the library that stores into a slice, map or struct field writes storage allocated by the same activation or a field of a per-call object; none writes storage reachable from a parameter. Plus: deep snapshot comparison of the document before/after every generated call on the real library, success and error paths.",
+         "A pure Gallina model cannot exhibit in-place mutation; the proof obligation is therefore about the source (static, conservative provenance analysis: part of the trusted base), the failing-input search is the Go-side snapshot oracle."),
  "C07": ("Theorems: isFalse = the five-case truth definition; ||, &&, ! return/short-circuit as specified, also when the unused operand would fail; == != deep equality, never across types; ordering comparators on two numbers else null.",
          "Exhaustive value-universe pairs are run through library, model and specification."),
  "C08": ("Theorems: the slice node (capSlice, computeSliceParams, the loops with 64-bit wrap-around and unchecked slice[i]) equals Python extended slicing for every array shorter than 2^63 and all int64 start/stop/step; step 0 is an error on arrays; non-arrays give null; never a panic or fuel exhaustion.",
          "Exhaustive windows for small lengths and boundary values are run through library, model and specification."),
+ "C11": ("Theorems: for every strict context (operands, both sides of . and |, projection left-hand sides, right-hand sides and filter conditions over at least one element, multi-select members, function arguments incl. map's expression reference; nested to any depth) an error of the expression in the hole is an error of the whole, for the specification and for the interpreter; projections propagate a failing left-hand side; unevaluated operands are not looked at.",
+         "Contexts x erroring seeds x documents are also run through library, model and specification."),
+ "C12": ("PARTIAL (named in Properties/C12.v): footprint theorem regenerated from the source (no write to storage reachable from parameters or to fields of objects shared between calls) and 'each call is a function of AST and its own document'; the step to 'no data race in any interleaving' is by test: 8 goroutines x many calls on shared compiled expressions and documents under the Go race detector, each result compared with the call made alone.",
+         "Interleavings and the Go memory model are not expressible in an executable Gallina model."),
+ "C13": ("Theorems over histories: any sequence of Search calls on one compiled expression returns what fresh calls return and leaves the object unchanged; one-shot Search = Compile then Search; a reused Parser answers like a fresh one after any sequence of (failed) Parse calls (stateful model mirroring the field assignments); no write to shared storage (regenerated).",
+         "Histories of calls are also run on the real library and compared with fresh objects."),
+ "C15": ("Theorems: eval of a pipe is composition of evals, it fails exactly when a step fails; the compiled pipe on the interpreter; referential transparency for every root context (congruence theorem), replacement by the literal of the value.",
+         "That the text 'A | B' is read as the pipe of A and B is a parser statement (C03); the harness compares Search('A | B', d) with Search(B, Search(A, d)) on the real library."),
  "C17": ("Theorems: Compile returns exactly one of (expression, error) on every byte string; a syntax error's offset lies in [0, len]; the caret rendering has the stated form and strings.Repeat is never called with a negative count; MustCompile panics exactly when Compile fails.",
          "Exact offsets are compared between library and model on generated inputs; the error message text is not modelled."),
  "C10": ("Theorems: the dispatcher of functions.go (regenerated table, resolveArgs/typeCheck, 26 handlers with unchecked assertions) equals the specification's call for every name and argument list; ill-typed / wrong arity / unknown => error; inconsistent by-keys => error at any length; evaluation never panics.",
